@@ -1225,12 +1225,53 @@ def check(run, rule, fn, want, F, what="", key=None, renames=None, hyps=None, in
             okall = False
             run.bad(rule, k + " extra behaviour", extra[0], fn.where(), expected=fmt(want).splitlines(), found=fmt(got).splitlines())
         return okall
+    if diffs:
+        # compositional retry: a call the specification keeps opaque (`<W<T> as Trait>::m(..)`, judged by its own specified instances) stays
+        # opaque even if the tree now has a local generic impl the evaluator could look into
+        opaque = _spec_calls(want)
+        if opaque:
+            base = inline or inline_local
+            hit = []
+
+            def inl(g, ev):
+                if base(g, ev) and summ.call_name(ev) in opaque:
+                    hit.append(summ.call_name(ev))
+                    return False
+                return base(g, ev)
+            try:
+                got2 = summarize(F, fn, renames=renames, inline=inl, root_subst=root_subst)
+                if hit and not compare(want, got2, hyps):
+                    run.ok(rule, k, (what or "behaviour as specified") + " (callee %s kept opaque as in the specification)" % sorted(set(hit))[0],
+                           fn.where(), method="semantic summary")
+                    return True
+            except Exception:
+                pass
     if not diffs:
         run.ok(rule, k, what or "behaviour as specified", fn.where(), method="semantic summary")
         return True
     run.bad(rule, k, "%sbehaviour differs from the specified summary: %s" % ((what + ": ") if what else "", diffs[0]),
             fn.where(), expected=fmt(want).splitlines(), found=fmt(got).splitlines())
     return False
+
+
+def _spec_calls(want):
+    """names of the trait-qualified calls that occur as effects in a specification"""
+    out = set()
+    for o in want.get("outcomes", []):
+        for seg in o["text"].split("; "):
+            m = re.match(r"^#\d+ = (<.*)$", seg)
+            if not m:
+                continue
+            t, depth = m.group(1), 0
+            for i, ch in enumerate(t):
+                if ch == "<":
+                    depth += 1
+                elif ch == ">":
+                    depth -= 1
+                elif ch == "(" and depth == 0:
+                    out.add(t[:i])
+                    break
+    return out
 
 
 def apply_renames(s, ren):
